@@ -6,6 +6,7 @@ import (
 	"go/token"
 	"go/types"
 	"sort"
+	"strings"
 
 	"golang.org/x/tools/go/ssa"
 )
@@ -264,6 +265,21 @@ func checkC02(p *Program, r *Report) {
 	asciiFoldExact(p, r, "C02.canon", roots)
 	ownPrefixRule(p, r, "C02.net")
 	r.Floor("C02.net", 1)
+	// round 5: clauses decided for C01 that are just as much C02's — "an accepted address belongs to the network asked
+	// for / to exactly the networks whose version byte it carries" is IsForNet's field agreement (C02-agent5-m2:
+	// legacy IsForNet answered through paramsFromNetID), and the raw public-key arm accepts exactly the two key
+	// lengths of the curve package (C02-agent5-m1: a bare 64-byte X||Y accepted and re-encoded with a marker)
+	r.Borrow("C01", func(o *Ob) (string, bool) {
+		switch {
+		case o.Rule == "C01.membership":
+			return "C02.member", true
+		case o.Rule == "C01.kinds" && strings.Contains(o.Construct, "hex arm"):
+			return "C02.hexarm", true
+		}
+		return "", false
+	})
+	r.Floor("C02.member", 4)
+	r.Floor("C02.hexarm", 1)
 }
 
 // regroupRoles recognises the bit-regrouping function: an outer loop with a
